@@ -54,6 +54,10 @@ pub struct C09Case {
     /// acknowledgement (`Exchange::acknowledge`) before they go on with the script
     #[serde(default)]
     pub standalone_acks: bool,
+    /// node A has a second, unrelated secure session whose peer closes it (CloseSession) that
+    /// many ms into the run - while A may be waiting for an acknowledgement on the first one
+    #[serde(default)]
+    pub other_session_closed_ms: Option<u16>,
 }
 
 fn default_linger() -> (u32, u32) {
@@ -86,8 +90,9 @@ pub fn case_strategy() -> impl Strategy<Value = C09Case> {
         prop_oneof![2 => Just(None), 1 => (0u16..2500, 50u16..1500).prop_map(Some)],
         any::<bool>(),
         prop::bool::weighted(0.3),
+        prop_oneof![2 => Just(None), 1 => (0u16..6000).prop_map(Some)],
     )
-        .prop_map(|(kind, script, plan, sched, seed, linger_ms, busy_tx, after_timeout, standalone_acks)| {
+        .prop_map(|(kind, script, plan, sched, seed, linger_ms, busy_tx, after_timeout, standalone_acks, other_session_closed_ms)| {
             let mut script: Vec<Msg> = script
                 .into_iter()
                 .map(|(from_a, len, recv_delay_ms)| Msg {
@@ -107,6 +112,7 @@ pub fn case_strategy() -> impl Strategy<Value = C09Case> {
                 busy_tx,
                 after_timeout,
                 standalone_acks,
+                other_session_closed_ms,
             }
         })
 }
@@ -318,6 +324,36 @@ pub fn simulate(case: &C09Case) -> Result<SimOut, Case> {
                 Timer::after(Duration::from_millis(at_ms as u64)).await;
                 if let Ok(mut e) = Exchange::initiate_plaintext(a, ca, vh::sim::net::alien_addr(0)).await {
                     let _ = e.send(MessageMeta::new(PROTO, 0x7f, false), &[0x42]).await;
+                }
+            });
+        }
+
+        if let Some(at_ms) = case.other_session_closed_ms {
+            // an unrelated (unsecured) session of A with a peer outside this net; that peer
+            // closes it `at_ms` into the run
+            let (a, ca, net) = (&a, &ca, &net);
+            let other = vh::sim::net::alien_addr(1);
+            ex.spawn("a.other", async move {
+                if let Ok(mut e) = Exchange::initiate_plaintext(a, ca, other).await {
+                    let _ = e.send(MessageMeta::new(PROTO, 0x7e, false), &[0x43]).await;
+                    Timer::after(Duration::from_millis(at_ms.max(1) as u64)).await;
+                    let req = net.with_tap(|t| {
+                        t.sent
+                            .iter()
+                            .rev()
+                            .filter(|s| s.src == 0)
+                            .filter_map(|s| decode_wire(&s.bytes, None, 0))
+                            .find(|w| !w.encrypted && w.proto_id == PROTO && w.opcode == 0x7e)
+                    });
+                    if let Some(req) = req {
+                        if let Some(bytes) =
+                            vh::sim::node::craft_close_session(None, 0, req.src_node, 0, 0x0100_0000, req.exch_id)
+                        {
+                            net.inject(0, other, bytes);
+                        }
+                    }
+                    // hold the exchange until the stack ends it
+                    let _ = e.recv_fetch().await;
                 }
             });
         }
@@ -634,6 +670,9 @@ fn check(case: &C09Case) -> Case {
     if case.busy_tx.is_some() {
         labels.push("busy-tx-slot".into());
     }
+    if case.other_session_closed_ms.is_some() {
+        labels.push("other-session-closed".into());
+    }
     let timeouts = la
         .sends
         .iter()
@@ -651,6 +690,7 @@ fn check(case: &C09Case) -> Case {
 }
 
 fn main() {
+    vh::util::init_stderr_log();
     let mut run = Run::new(
         "C09",
         "exploration",
